@@ -1022,7 +1022,8 @@ func (r *Runner) builtin(ctx context.Context, pos syntax.Pos, name string, args 
 			})
 		}
 		for scanner.Scan() {
-			vr.List = append(vr.List, scanner.Text())
+			// like bash, drop null bytes: shell strings cannot hold them
+			vr.List = append(vr.List, strings.ReplaceAll(scanner.Text(), "\x00", ""))
 		}
 		if stop != nil && !stop() {
 			// The AfterFunc was started; wait for it, and reset the file's deadline.
@@ -1109,6 +1110,8 @@ func (r *Runner) readLine(ctx context.Context, raw bool) ([]byte, error) {
 				esc = false
 			case b == '\n':
 				return line, nil
+			case b == 0:
+				// like bash, drop null bytes: shell strings cannot hold them
 			default:
 				line = append(line, b)
 				esc = false
